@@ -5,6 +5,7 @@ package run
 import (
 	"fmt"
 	"os"
+	"os/exec"
 	"path/filepath"
 	"regexp"
 	"sort"
@@ -90,6 +91,32 @@ func (rc *runCase) reattach(t *rapid.T, prop string, survivors []*simrun.Job) {
 	rc.seen = len(ns.Jobs)
 }
 
+// incompleteForks lists fork directories with neither _complete nor
+// _disabled (diagnostics).
+func incompleteForks(psDir string) string {
+	var r []string
+	if keep := os.Getenv("VERIF_KEEP_FAIL"); keep != "" {
+		exec.Command("cp", "-r", psDir, fmt.Sprintf("%s/ps-%d-%d", keep, os.Getpid(), caseSeq)).Run()
+	}
+	filepath.Walk(psDir, func(p string, fi os.FileInfo, err error) error {
+		if err == nil && fi.IsDir() && strings.HasPrefix(fi.Name(), "fork") {
+			_, e1 := os.Stat(filepath.Join(p, "_complete"))
+			_, e2 := os.Stat(filepath.Join(p, "_disabled"))
+			if e1 != nil && e2 != nil {
+				ents, _ := os.ReadDir(p)
+				var names []string
+				for _, e := range ents {
+					names = append(names, e.Name())
+				}
+				r = append(r, strings.TrimPrefix(p, psDir)+": "+strings.Join(names, " "))
+			}
+			return filepath.SkipDir
+		}
+		return nil
+	})
+	return strings.Join(r, "\n  ")
+}
+
 // referenceRun runs the program undisturbed (every pending job finishes, in
 // submission order, between scheduler rounds), performs the final cleanup and
 // returns the top-level outputs record.
@@ -154,6 +181,10 @@ func normPaths(v any, psDir string) any {
 // removed, and a new Pipestance is attached to the directory.
 func TestInterrupt(t *testing.T) {
 	root := workRoot(t)
+	// whatever goes wrong in a run that was interrupted is a C05 matter
+	// (stalls, wrong arguments after the restart, ...)
+	propOverride = "C05"
+	defer func() { propOverride = "" }()
 	rapid.Check(t, func(t *rapid.T) {
 		defer func() {
 			if p := recover(); p != nil {
@@ -171,6 +202,8 @@ func TestInterrupt(t *testing.T) {
 			return
 		}
 		defer done()
+		rc.persist = "C05/mrp-aborts-after-restart"
+		defer stats.InflightDone()
 		maxCrashes := rapid.IntRange(1, 3).Draw(t, "crashes")
 		crashes := 0
 		completedBefore := map[string]bool{}
@@ -202,7 +235,7 @@ func TestInterrupt(t *testing.T) {
 			}
 			var survivors []*simrun.Job
 			for _, j := range pending {
-				fate := rapid.SampledFrom([]string{"queued", "dead-running", "dead-after-outs", "finished-unnoticed", "alive"}).Draw(t, "fate")
+				fate := rapid.SampledFrom([]string{"queued", "dead-running", "dead-after-outs", "killed-with-error", "finished-unnoticed", "alive"}).Draw(t, "fate")
 				if j.Started && fate == "queued" {
 					fate = "alive"
 				}
@@ -218,6 +251,15 @@ func TestInterrupt(t *testing.T) {
 						if outs, err = sim.Compute(j); err == nil {
 							err = sim.WriteOuts(j, outs)
 						}
+					}
+				case "killed-with-error":
+					// a handled signal: the job monitor was terminated with
+					// mrp and recorded that in _errors
+					if !j.Started {
+						err = sim.StartWithPid(j, simrun.DeadPid())
+					}
+					if err == nil {
+						err = sim.Fail(j, "errors", "signal: terminated")
 					}
 				case "finished-unnoticed":
 					if !j.Started {
@@ -267,9 +309,11 @@ func TestInterrupt(t *testing.T) {
 			rc.logf("interrupt: mrp is gone after the final VDR pass")
 			rc.sim.RemoveLock()
 			rc.reattach(t, "C05", nil)
-			rc.sim.Refresh()
-			if st := rc.sim.State(); st != core.Complete && st != core.DisabledState {
-				fail(t, "C05", "complete-pipestance-not-complete-after-restart", "state %q\n%s", st, rc.describe())
+			// (forks of disabled map calls may only be expanded now: the
+			// scheduler needs a few rounds, but must not run any job)
+			crashes = maxCrashes
+			if st := rc.drive(t, ix); st != core.Complete && st != core.DisabledState {
+				fail(t, "C05", "complete-pipestance-not-complete-after-restart", "state %q; forks without _complete:\n  %s\n%s", st, incompleteForks(rc.sim.Dir), rc.describe())
 			}
 			fates["during-cleanup"]++
 		case "after-postprocess":
@@ -278,9 +322,11 @@ func TestInterrupt(t *testing.T) {
 			rc.logf("interrupt: mrp is gone after post-processing")
 			rc.sim.RemoveLock()
 			rc.reattach(t, "C05", nil)
-			rc.sim.Refresh()
-			if st := rc.sim.State(); st != core.Complete && st != core.DisabledState {
-				fail(t, "C05", "complete-pipestance-not-complete-after-restart", "state %q\n%s", st, rc.describe())
+			// (forks of disabled map calls may only be expanded now: the
+			// scheduler needs a few rounds, but must not run any job)
+			crashes = maxCrashes
+			if st := rc.drive(t, ix); st != core.Complete && st != core.DisabledState {
+				fail(t, "C05", "complete-pipestance-not-complete-after-restart", "state %q; forks without _complete:\n  %s\n%s", st, incompleteForks(rc.sim.Dir), rc.describe())
 			}
 			fates["after-cleanup"]++
 		}
